@@ -42,7 +42,7 @@ Definition c11_run (v : vl) : vl :=
         let al := alpha_of (d_cls d) in
         let an := alnum_of (d_cls d) in
         let ok := strftime_ok_of (d_times d) in
-        let flags2 := [VB (existsb (tz_class ok) ps); VB (existsb has_error ps)] in
+        let flags2 := [VN 0 (* formerly: in the zone finding class (fixed d5a5dce) *); VB (existsb has_error ps)] in
         let errs := VL (map (fun m => VL (map VN m)) (top_errors (map (compile ok) ps))) in
         match a with
         | VL [] => VL [res; VL (flags2 ++ [VN 0; VN 0]); errs; VL []]
